@@ -63,8 +63,8 @@ func (h HelperContext) BlockWith(hc hctx.Context) (string, error) {
 
 	i, err := cc.evalBlockStatement(h.block)
 	if err != nil {
-		if cc.curStmt != nil && blockErrorOf(err, cc.program) == nil {
-			err = &blockError{stmt: cc.curStmt, program: cc.program, err: err}
+		if cc.curStmt != nil && blockErrorOf(err, cc.loopControl) == nil {
+			err = &blockError{stmt: cc.curStmt, exec: cc.loopControl.root(), err: err}
 		}
 		return "", err
 	}
@@ -89,24 +89,26 @@ func (h HelperContext) BlockWith(hc hctx.Context) (string, error) {
 // blockError remembers which statement of a helper's block failed, so that
 // the error is reported at that statement's line.
 type blockError struct {
-	stmt    ast.Statement
-	program *ast.Program // the template the statement belongs to
-	err     error
+	stmt ast.Statement
+	exec *loopSignal // stands for the execution (Template.Exec) the block ran in
+	err  error
 }
 
 func (e *blockError) Error() string { return e.err.Error() }
 func (e *blockError) Unwrap() error { return e.err }
 
-// blockErrorOf finds the failing block statement that belongs to program p.
-// An error that comes out of a partial carries the statement of the
-// partial's own template, which says nothing about a line of the caller.
-func blockErrorOf(err error, p *ast.Program) *blockError {
+// blockErrorOf finds the failing block statement that belongs to the
+// execution that sig is part of. An error that comes out of a partial (or
+// out of another execution of the same template, when a template includes
+// itself) carries a statement of that other execution, which says nothing
+// about a line of the caller.
+func blockErrorOf(err error, sig *loopSignal) *blockError {
 	for err != nil {
 		var be *blockError
 		if !errors.As(err, &be) {
 			return nil
 		}
-		if be.program == p {
+		if be.exec == sig.root() {
 			return be
 		}
 		err = be.err
